@@ -40,6 +40,9 @@ func (*requestCodec) HandleRead(ctx netty.InboundContext, message netty.Message)
 			// TODO: replace request context by the channel context
 			//
 			ctx.HandleRead(request)
+			// skip what the handler left unread of the request body, otherwise
+			// it would be parsed as the next request on this connection.
+			_, _ = io.Copy(io.Discard, request.Body)
 			// Close indicates whether to close the connection after
 			// replying to this request
 			if request.Close {
